@@ -140,9 +140,36 @@ def mutation_case(col, rng):
             col.add(None)
 
 
+def dropped_model_case(col):
+    """nodes of a model that was dropped (not popped) are re-wired and rebuilt"""
+    import gc
+    a = lsl.Value(1.0, _name="a")
+    b = lsl.Calc(lambda x: x + 1.0, a, _name="b")
+    m1 = lsl.GraphBuilder().add(b).build_model()
+    del m1
+    gc.collect()
+    c_ = lsl.Calc(lambda x: x * 3.0, a, _name="c")
+    m2 = lsl.GraphBuilder().add(c_).build_model()
+    bad = None
+    if [o.name for o in a.outputs] != ["c"]:
+        bad = f"outputs of a are {[o.name for o in a.outputs]}, but only c has it as an input"
+    else:
+        try:
+            a.value = 2.0
+            if float(c_.value) != 6.0:
+                bad = "assignment did not propagate"
+        except RuntimeError as e:
+            bad = f"assignment raised {e}"
+    col.add({"sig": "native::structure::stale_outputs", "what": bad, "input": {"scenario": "build, drop model, re-wire, rebuild"}} if bad else None)
+
+
 def bounded(tier, seed):
     rng = np.random.default_rng(seed)
     col = util.Collector()
+    try:
+        dropped_model_case(col)
+    except Exception as e:
+        col.add({"sig": f"native::structure::exception::{type(e).__name__}", "what": str(e)[:200], "input": {"scenario": "dropped model"}})
     hows = ("pop_rebuild", "copy_nodes_rebuild", "deepcopy", "copy_true", "save_load")
     n = 0
     for rep in range(1 if tier == "quick" else 4):
